@@ -568,6 +568,9 @@ def check_elementwise(chk, v, name, spec):
     if any(p["kind"] in ("asm", "while", "unknown") for p in ps):
         chk.broken("%s: construct not recognised" % name)
     stores = [p for p in ps if p["kind"] == "store"]
+    opaque = summ.opaque_writers(v, ps)
+    if opaque:
+        chk.broken("%s: memory may be written by %s, which the analysis does not see through" % (name, summ.show_opaque(opaque)))
     if not stores:
         chk.refuted("R5", key, where=f.where, detail="no statement writes the result", variant=v.name)
         return
@@ -587,7 +590,17 @@ def check_elementwise(chk, v, name, spec):
             chk.broken("%s: statement at line %s is not in a single loop" % (name, s_["line"]))
         lp = s_["loops"][0]
         if lp["lo"] != ZERO or lp["cmp"] != "<" or lp["hi"] not in Ns or lp["step"] != I(1):
-            problems.append("range [%s %s %s) at line %s is not [0,N)" % (sym.show(lp["lo"]), lp["cmp"], sym.show(lp["hi"]), s_["line"]))
+            # any other loop form (descending, unrolled with a tail is several statements and handled above): every access of an
+            # element-wise statement is at the loop's own index, so only the SET of indices matters -- decided for every N
+            from sa import coverage
+            Nn = sym.sym("N")
+            one = {x: Nn for x in Ns}
+            lpn = dict(lp, lo=sym.rewrite(lp["lo"], one), hi=sym.rewrite(lp["hi"], one))
+            stc, detc = coverage.cover_1d([(lpn, lp["var"], 1)], Nn)
+            if stc == "refuted":
+                problems.append("the loop at line %s does not visit [0,N) exactly once: %s" % (s_["line"], detc))
+            elif stc != "proved":
+                chk.broken("%s: index set of the loop at line %s not decided (%s)" % (name, s_["line"], detc))
         elt = s_.get("t", "")
         if elt and elt.replace("const ", "") not in ("int", "unsigned int"):
             problems.append("element type %s is not a 32-bit wrapping integer" % elt)
